@@ -262,6 +262,11 @@ def element_parsing(
             end_sl = element.end_note.start.t
             part.add(element, start=start_sl, end=end_sl)
 
+        # interpretation tokens without a counterpart in the score are not timed
+        # objects: they do not belong on the timeline of the part
+        elif isinstance(element, KernElement):
+            continue
+
         # Handle other elements
         else:
             # Do not repeat structural elements if they are being added to the same part.
